@@ -168,6 +168,8 @@ func (e *Eval) call(fr *frame, x *ssa.Call, st State) AV {
 			}
 			if gr, gs, ok := e.guardedResult(x, callee, e.lastRets); ok {
 				res, out = gr, gs
+			} else {
+				e.callWorlds(fr, x, e.lastRets, out)
 			}
 			// the callee worked on the same state map semantics: copy back
 			for k := range st {
@@ -190,6 +192,63 @@ func (e *Eval) call(fr *frame, x *ssa.Call, st State) AV {
 		}
 	}
 	return e.model(fr, x, callee, args, st)
+}
+
+// callWorlds keeps the returns of a module helper apart when they differ in what they give
+// back (`return -1` on a miss, `return idx` on a hit): a later test of the result against a
+// constant selects the returns it agrees with, and with them the state they left (worldSet).
+func (e *Eval) callWorlds(fr *frame, x *ssa.Call, rets []retRec, out State) {
+	delete(fr.worlds, x)
+	if len(rets) < 2 || len(rets) > 8 {
+		return
+	}
+	var exts []*ssa.Extract
+	if refs := x.Referrers(); refs != nil {
+		for _, r := range *refs {
+			if ex, ok := r.(*ssa.Extract); ok {
+				exts = append(exts, ex)
+			}
+		}
+	}
+	ws := &worldSet{site: x, joined: map[*Obj]string{}}
+	differ := false
+	for _, r := range rets {
+		w := map[ssa.Value]AV{}
+		switch {
+		case len(r.vals) == 1:
+			w[x] = r.vals[0]
+		default:
+			for _, ex := range exts {
+				if ex.Index < len(r.vals) {
+					w[ex] = r.vals[ex.Index]
+				}
+			}
+		}
+		if len(w) == 0 {
+			return
+		}
+		if len(ws.alts) > 0 {
+			for v, a := range w {
+				if fmt.Sprint(ws.alts[0][v]) != fmt.Sprint(a) {
+					differ = true
+				}
+			}
+		}
+		ws.alts = append(ws.alts, w)
+		ws.states = append(ws.states, r.st)
+	}
+	if !differ {
+		return
+	}
+	for o, c := range out {
+		if c != nil {
+			ws.joined[o] = c.String()
+		}
+	}
+	if fr.worlds == nil {
+		fr.worlds = map[any]*worldSet{}
+	}
+	fr.worlds[x] = ws
 }
 
 func (e *Eval) stackHasLoop() bool { return len(e.activeLoops) > 0 }
@@ -711,6 +770,15 @@ func (e *Eval) cloneBytes(fr *frame, x ssa.Instruction, src BytesV, st State) AV
 	return r
 }
 
+func isASCII(s string) bool {
+	for i := 0; i < len(s); i++ {
+		if s[i] >= 0x80 {
+			return false
+		}
+	}
+	return true
+}
+
 func stripObj(b BytesV) BytesV {
 	b.Obj, b.WinOf, b.WinLo, b.WinConst, b.WinOff, b.WinN = nil, nil, nil, false, 0, 0
 	return b
@@ -769,6 +837,17 @@ func (e *Eval) model(fr *frame, x *ssa.Call, callee *ssa.Function, args []AV, st
 	}
 	if strings.HasPrefix(name, "(*strings.Builder).") {
 		return ret(e.sbMethod(fr, x, callee.Name(), args, st))
+	}
+	if strings.HasPrefix(name, "(*bytes.Buffer).") && len(args) > 0 {
+		if p, ok := args[0].(PtrV); ok && p.O != nil && p.O.Kind == okSB {
+			if callee.Name() == "Bytes" {
+				if sv, ok := e.sbMethod(fr, x, "String", args, st).(StrV); ok {
+					return ret(BytesV{Src: "conv", Str: sv})
+				}
+				return ret(BytesV{Src: "⊤: bytes of a buffer"})
+			}
+			return ret(e.sbMethod(fr, x, callee.Name(), args, st))
+		}
 	}
 	switch name {
 	case "math/big.NewInt":
@@ -949,6 +1028,18 @@ func (e *Eval) model(fr *frame, x *ssa.Call, callee *ssa.Function, args []AV, st
 					}
 					return ret(BytesV{Src: "conv", Str: StrV{Kind: skNFKD, X: inner}})
 				}
+				// a destination that holds a constant ASCII text: ASCII characters are starters
+				// and NFKD composes nothing, so NFKD(out ++ src) is out followed by NFKD(src)
+				if d, ok := args[1].(BytesV); ok && inner != nil && d.Param == nil {
+					dd := e.resolveBytes(d, st)
+					if pre, ok := dd.Str.(StrV); ok && pre.Kind == skConst && isASCII(pre.S) {
+						var tail AV = StrV{Kind: skNFKD, X: inner}
+						if sv, ok := inner.(StrV); ok && sv.Kind == skConst {
+							tail = CStr(norm.NFKD.String(sv.S))
+						}
+						return ret(BytesV{Src: "conv", Str: StrV{Kind: skConcat, Parts: []AV{pre, tail}}})
+					}
+				}
 			}
 		}
 		if d, ok := args[1].(BytesV); ok {
@@ -1086,6 +1177,16 @@ func (e *Eval) model(fr *frame, x *ssa.Call, callee *ssa.Function, args []AV, st
 		// a command-line option: the analysis judges the program as run with its defaults
 		if d, ok := args[1].(StrV); ok && d.Kind == skConst {
 			return ret(PtrV{Ext: d})
+		}
+	case "flag.Bool":
+		if d, ok := args[1].(BoolV); ok && d.Known {
+			return ret(PtrV{Ext: d})
+		}
+	case "flag.Int", "flag.Int64", "flag.Uint", "flag.Uint64", "flag.Duration":
+		if d, ok := args[1].(IntV); ok {
+			if _, isC := d.Const(); isC {
+				return ret(PtrV{Ext: d})
+			}
 		}
 	case "path/filepath.Join", "path.Join":
 		// two clean components: dir + "/" + file
